@@ -57,6 +57,8 @@ AUTH_KEYS = {
 def restrictions_of(cred):
     """(forced command or None, port forwarding allowed) of an accepted credential"""
     kind = cred[0]
+    if kind == 'cert':
+        return (None, False)        # the hand-built certificate carries no permit-port-forwarding extension
     if kind == 'pk':
         _, user, keyname = cred[:3]
         for k, opts in AUTH_KEYS[user]:
@@ -89,6 +91,8 @@ class AuthServer(asyncssh.SSHServer):
     def begin_auth(self, username):
         self.log.append(('begin_auth', username))
         text = ''.join(openssh_line(k, o) for k, o in AUTH_KEYS.get(username, []))
+        if username == 'alice':
+            text += openssh_line('ca', 'cert-authority,principals="alice",no-pty')
         self.conn.set_authorized_keys(asyncssh.import_authorized_keys(text) if text else None)
         if self.env.get('async_begin'):
             return self._later(('begin', username), True)
@@ -106,7 +110,16 @@ class AuthServer(asyncssh.SSHServer):
         return self._later(('pw', username, password), ok)
 
     def kbdint_auth_supported(self):
-        return False
+        return True
+
+    def get_kbdint_challenge(self, username, lang, submethods):
+        self.log.append(('kbdint_challenge', username))
+        return 'title', 'instructions', 'en', [('Password:', False)]
+
+    def validate_kbdint_response(self, username, responses):
+        ok = list(responses) == [PASSWORDS.get(username)]
+        self.log.append(('validate_kbdint', username, tuple(responses)))
+        return self._later(('kbd', username, tuple(responses)), ok)
 
     def public_key_auth_supported(self):
         return True
@@ -169,6 +182,27 @@ def build_request(rp, req):
         elif variant == 'sig-alg-other':
             sigblob = R.string(R.string('ssh-rsa') + R.string(sig))
         return rp.userauth_request(user, 'publickey', body + sigblob)
+    if kind == 'kbd':
+        return rp.userauth_request(user, 'keyboard-interactive', R.string('') + R.string(''))
+    if kind == 'kbdresp':
+        which = req[2]
+        if which == 'count':
+            return R.byte(61) + R.u32(2) + R.string('x') + R.string('y')
+        pw = PASSWORDS[user] if which == 'right' else 'nope'
+        return R.byte(61) + R.u32(1) + R.string(pw)
+    if kind == 'cert':
+        import c16
+        variant = req[2]
+        far = 2 ** 64 - 1
+        princ = ['alice'] if variant != 'wrong-principal' else ['carol']
+        after, before = (0, far) if variant != 'expired' else (0, 1000)
+        ca = _AsKey('ca') if variant != 'other-ca' else _AsKey('kx')
+        blob = c16.build_cert(ca, _AsKey('ka2'), 1, princ, after, before)
+        body = R.boolean(True) + R.string('ssh-ed25519-cert-v01@openssh.com') + R.string(blob)
+        signed = R.string(rp.session_id) + R.byte(R.MSG_USERAUTH_REQUEST) + R.string(user) + \
+            R.string('ssh-connection') + R.string('publickey') + body
+        sig = ckey('ka2').sign(signed)
+        return rp.userauth_request(user, 'publickey', body + R.string(R.string('ssh-ed25519') + R.string(sig)))
     if kind == 'trunc':
         full = rp.password_request(user, PASSWORDS[user])
         return full[:-1]
@@ -179,6 +213,39 @@ def build_request(rp, req):
     raise ValueError(req)
 
 
+class _AsKey:
+    """adapter giving the raw refpeer keys the two attributes c16.build_cert uses"""
+
+    def __init__(self, name):
+        self.name = name
+        self.public_data = pubblob(name)
+
+    def export_private_key(self, _fmt):
+        from cryptography.hazmat.primitives import serialization as ser
+        return ckey(self.name).private_bytes(ser.Encoding.PEM, ser.PrivateFormat.OpenSSH, ser.NoEncryption())
+
+
+def valid_users(hist):
+    """set of users for whom the history contains a valid credential (sequential interpreter:
+    a keyboard-interactive response belongs to the kbdint request still current when it arrives)"""
+    out = set()
+    cur_kbd = None
+    for r in hist:
+        r = tuple(r)
+        u = valid_for(r)
+        if u:
+            out.add(u)
+        if r[0] == 'kbd':
+            cur_kbd = r[1]
+        elif r[0] == 'kbdresp':
+            # any response carrying U's correct answer while U's exchange is the latest request
+            if cur_kbd is not None and cur_kbd == r[1] and r[2] == 'right':
+                out.add(cur_kbd)
+        elif r[0] not in ('open',):
+            cur_kbd = None
+    return out
+
+
 def valid_for(req):
     """user for whom this request is a valid credential, or None"""
     kind = req[0]
@@ -186,6 +253,8 @@ def valid_for(req):
         return req[1]
     if kind == 'pk' and req[3] == 'good' and any(k == req[2] for k, _ in AUTH_KEYS[req[1]]):
         return req[1]
+    if kind == 'cert' and req[2] == 'good' and req[1] == 'alice':
+        return 'alice'
     return None
 
 
@@ -212,6 +281,14 @@ def alphabet(level):
         for var in ('empty-sig', 'empty-inner-sig', 'zero-sig', 'no-sig-field', 'sig-alg-other'):
             a.append(('pk', 'alice', 'ka', var))
         a.append(('pw', 'alice', 'empty'))
+        for u in users:
+            a.append(('kbd', u))
+            a.append(('kbdresp', u, 'right'))
+            a.append(('kbdresp', u, 'wrong'))
+        a.append(('kbdresp', 'alice', 'count'))
+        for var in ('good', 'expired', 'wrong-principal', 'other-ca'):
+            a.append(('cert', 'alice', var))
+        a.append(('cert', 'bob', 'good'))
         a.append(('trunc', 'alice'))
         a.append(('trail', 'alice'))
     return a
@@ -345,6 +422,8 @@ def judge(hist, obs):
             v.append(('username-mismatch', 'auth_completed saw %r, final %r'
                       % (obs['completed'][0][1], user)))
         cands = [r for r in hist if valid_for(r) == user]
+        if not cands and user in valid_users(hist):
+            cands = [('kbdint', user)]
         if not cands:
             v.append(('granted-without-credential',
                       'authenticated as %r but no request in the history is a valid '
@@ -352,6 +431,8 @@ def judge(hist, obs):
                       % (user, hist, obs['events'])))
         elif obs['forced'] is not None or obs['fwd_attempt'] is not None:
             allowed = {restrictions_of(c) for c in cands}
+            if user in valid_users(hist):
+                allowed.add((None, True))       # a keyboard-interactive credential carries no restrictions
             forced = None if obs['forced'] == 'probe-cmd' else obs['forced']
             got = (forced, bool(obs['fwd_attempt']))
             if obs['forced'] is not None and got not in allowed:
@@ -411,7 +492,8 @@ def histories(tier):
         [[r1, r2] for r1 in a_small for r2 in a1]
     core3 = [('pw', 'alice', 'right'), ('pw', 'bob', 'wrong'), ('probe', 'alice', 'ka'),
              ('pk', 'bob', 'ka', 'good'), ('none', 'bob'), ('open', '-'),
-             ('pk', 'alice', 'ka', 'good'), ('pw', 'alice', 'wrong')]
+             ('pk', 'alice', 'ka', 'good'), ('pw', 'alice', 'wrong'), ('kbd', 'alice'), ('kbdresp', 'alice', 'right'),
+             ('kbdresp', 'bob', 'right'), ('cert', 'alice', 'good'), ('kbd', 'bob')]
     hs += [[r1, r2, r3] for r1 in core3 for r2 in core3 for r3 in core3]
     if tier == 'thorough':
         core4 = core3[:5]
@@ -429,10 +511,10 @@ def converse():
 
 def main(tier, seed):
     t0 = core.now()
-    bound = 2 if tier == 'quick' else 3
+    bound = 3 if tier == 'quick' else 4
     hs = histories(tier)
     jobs = [(h, bound if len(h) < 3 or tier == 'thorough' else min(bound, 2), False) for h in hs]
-    jobs += [(h, 1 if tier == 'quick' else 2, True) for h in hs if len(h) <= 2]
+    jobs += [(h, 2 if tier == 'quick' else 3, True) for h in hs if len(h) <= 2]
     # determinism: the same schedule twice
     probe = [['pw', 'alice', 'right'], ['pw', 'bob', 'wrong']]
     ch0 = core.Chooser([])
